@@ -58,6 +58,8 @@ def _cases(shard):
             cfg['sizes'] = sizes
         if hook:
             cfg['hook'] = True
+        if draw(st.integers(0, 2)) == 0:
+            cfg['unbound'] = True       # every call goes through the class: getattr does not activate ghosts first
         dom = [x for x in F.domain(fam, 'int') if x is not None or not hook]
         if hook:
             dom = [x for x in dom if x is not None and abs(x) < 1000]
@@ -242,7 +244,7 @@ def _edge(lv, sk, tok):
 
 def _special(lv, op, ctx, i):
     """C05-specific operations; returns (got, want, mode) or None"""
-    t, m, fam = lv.t, lv.model, lv.fam
+    t, m, fam = lv.callee(), lv.model, lv.fam
     name = op[0]
     sk = lv.sorted_keys()
     if name in ('range', 'view'):
@@ -299,7 +301,7 @@ def _special(lv, op, ctx, i):
         call = (lambda: getattr(t, name)()) if b is None else (lambda: getattr(t, name)(kb))
         return call, want, 'eq'
     if name == 'isdisjoint_self':
-        return (lambda: t.isdisjoint(t)), ('ok', not m), 'truth'
+        return (lambda: t.isdisjoint(lv.t)), ('ok', not m), 'truth'
     if name == 'alg':
         _, fn, toks, okind, swap, sweep = op
         if fn == 'isdisjoint':
@@ -309,7 +311,7 @@ def _special(lv, op, ctx, i):
             fn = {'weightedUnion': 'union', 'weightedIntersection': 'intersection'}[fn]
         other, okeys = lv.stored_other(okind, toks)
         mine = list(sk)
-        a, b = (other, t) if swap else (t, other)
+        a, b = (other, lv.t) if swap else (lv.t, other)
         ka, kb = (okeys, mine) if swap else (mine, okeys)
 
         def has(k, ks):
@@ -326,7 +328,7 @@ def _special(lv, op, ctx, i):
             import operator
             f = {'or': operator.or_, 'and': operator.and_, 'sub': operator.sub}[fn]
         elif fn == 'isdisjoint':
-            f = lambda x, y: x.isdisjoint(y)
+            f = lambda x, y: t.isdisjoint(y)
         else:
             f = F.fn(fam, fn, lv.impl)
             if f is None:
@@ -352,7 +354,7 @@ def _special(lv, op, ctx, i):
         def call():
             if sweep:
                 lv.conn.minimize()
-            return list(mu([other] + ex[:1] + [t] + ex[1:]))
+            return list(mu([other] + ex[:1] + [lv.t] + ex[1:]))
         return call, ('ok', want), 'eq'
     if name == 'upd':
         _, how, toks, okind, sweep = op
@@ -440,6 +442,8 @@ def run_case(case, ctx):
     with CLive(cfg) as lv:
         lv.setup(case['base'], case.get('basev'), hook)
         classes = ['kind:' + lv.kind, 'impl:' + lv.impl, 'mode:' + ('incmp' if hook else 'between')]
+        if cfg.get('unbound'):
+            classes.append('calls:through_the_class')
         nontrivial = False
         for i, op in enumerate(case['ops']):
             name = op[0]
@@ -543,7 +547,7 @@ def run_case(case, ctx):
 
 
 def _bad(lv, which, desc, sig, ctx, classes):
-    t, fam = lv.t, lv.fam
+    t, fam = lv.callee(), lv.fam
     before = lv.model_contents()
     bk, bv = _bad_key(fam), _bad_val(fam)
     sk = lv.sorted_keys()
@@ -588,7 +592,7 @@ def _bad(lv, which, desc, sig, ctx, classes):
             else:
                 t.update([bk])
         elif which == 'alg_badoperand':
-            F.fn(fam, 'union', lv.impl)(t, [bk])
+            F.fn(fam, 'union', lv.impl)(lv.t, [bk])
         elif which == 'missing':
             if missing in lv.model:
                 return
